@@ -475,7 +475,7 @@ def gen_spec(rng, max_width=4, max_depth=8, exotic=0.06, max_regs=7):
             off = rng.choice(q2 if n == 2 else q1)
             n_b += n
         elif k == "measure":
-            n = 2 if q2 and rng.random() < 0.25 and len(cur) + (0 if True else 0) <= max_width else 1
+            n = 2 if q2 and rng.random() < 0.25 else 1
             destructive = 0 if (rng.random() < 0.3 and len(cur) + n <= max_width) else 1
             box, off = ("measure", n, destructive, 0), rng.choice(q2 if n == 2 else q1)
             n_b += n
